@@ -137,10 +137,9 @@ def run_task(task):
                 tr.update(v)
                 ex.add(v)
                 # checkpoint / restore mid-stream: the stream continues on a pickle round trip, later on a deep copy
-                if i == n // 3:
-                    tr = _pickle.loads(_pickle.dumps(tr))
-                elif i == (2 * n) // 3:
-                    tr = _copy.deepcopy(tr)
+                if i == n // 3 or i == (2 * n) // 3:
+                    cp = choice.safe_copy(tr, 'pickle' if i == n // 3 else 'deepcopy')
+                    tr = cp if cp is not None else tr
                 if i in marks:
                     n_checked += 1
                     check_welford(tr, ex, f"WelfordTracker after {i} values of the stream (spread {mag:g}, offset "
@@ -158,10 +157,9 @@ def run_task(task):
             import pickle as _pickle
             for i, v in enumerate(vals, start=1):
                 tr.update(v)
-                if i == n // 3:
-                    tr = _pickle.loads(_pickle.dumps(tr))
-                elif i == (2 * n) // 3:
-                    tr = _copy.deepcopy(tr)
+                if i == n // 3 or i == (2 * n) // 3:
+                    cp = choice.safe_copy(tr, 'pickle' if i == n // 3 else 'deepcopy')
+                    tr = cp if cp is not None else tr
                 t = (1 - da) * t + da * decimal.Decimal(v)
                 mx = max(mx, abs(v))
                 if i in marks:
